@@ -584,7 +584,7 @@ func c15ExecFC(x *c15Ctx, op, base string, q []byte, refs [][]byte) (string, []F
 	if gotMaxe != wantD {
 		x.addf(op+".distance."+class, "minimal distance %d, returned %d", wantD, gotMaxe)
 	} else if c15Ints(sorted) != c15Ints(wantSet) {
-		x.addf(op+".ties."+class, "references at minimal distance %d: %v, returned %v", wantD, wantSet, sorted)
+		x.addf(op+".ties."+class, "references at minimal distance %d: %s, returned %s", wantD, c15Short(wantSet), c15Short(sorted))
 	}
 	if len(wantSet) > 1 {
 		stat("fc:ties")
@@ -621,7 +621,37 @@ func c15Taxa(tax *obitax.Taxonomy, taxids []int) obitax.TaxonSet {
 }
 
 // the statement on one index: every recorded d maps to the LCA of the taxa of all references within d
-func c15CheckIndex(x *c15Ctx, sig string, idx map[int]string, ps []c15Pair, taxids []int, par map[int]int) {
+func c15CheckIndex(x *c15Ctx, sig string, idx map[int]string, ps []c15Pair, taxids []int, par map[int]int, lseq int) {
+	// what Identify reads: for a distance D below the length of the indexed sequence, the entry of the largest
+	// recorded distance <= D is the LCA of the taxa of all references within D
+	for D := 0; D < lseq; D++ {
+		k := D
+		for k >= 0 {
+			if _, ok := idx[k]; ok {
+				break
+			}
+			k--
+		}
+		if k < 0 {
+			x.addf(sig+".lookup-no-entry", "no entry <= %d in %v", D, idx)
+			break
+		}
+		t, err := strconv.Atoi(strings.Split(idx[k], "@")[0])
+		if err != nil {
+			continue
+		}
+		var within []int
+		for j, p := range ps {
+			if p.dist() <= D {
+				within = append(within, taxids[j])
+			}
+		}
+		if len(within) > 0 {
+			if want := c15LcaSet(par, within); want != t {
+				x.addf(sig+".lookup-not-lca", "distance %d selects entry %d -> taxon %d, LCA of the references within %d is %d", D, k, t, D, want)
+			}
+		}
+	}
 	for d, v := range idx {
 		t, err := strconv.Atoi(strings.Split(v, "@")[0])
 		if err != nil {
@@ -662,7 +692,7 @@ func c15ExecIX(x *c15Ctx, base string, s int, refs [][]byte, taxids []int, taxo 
 		x.addf("ix."+res, "IndexSequence: %s", res)
 		return res, x.fails
 	}
-	c15CheckIndex(x, "ix", idx, ps, taxids, par)
+	c15CheckIndex(x, "ix", idx, ps, taxids, par, len(refs[s]))
 	if len(idx) > 1 {
 		stat("ix:entries>1")
 	}
@@ -702,7 +732,7 @@ func c15ExecID(x *c15Ctx, op, base string, q []byte, refs [][]byte, taxids []int
 			n, _ := qs.GetIntAttribute("obitag_match_count")
 			for j, r := range rs { // the indices built lazily by Identify obey the index statement too
 				if idx := r.OBITagRefIndex(); idx != nil {
-					c15CheckIndex(x, "id1.index", idx, rows[j], taxids, par)
+					c15CheckIndex(x, "id1.index", idx, rows[j], taxids, par, len(refs[j]))
 				}
 			}
 			return fmt.Sprintf("%d %s %d", assigned, c15IdxOf(bm), n)
@@ -1001,6 +1031,13 @@ func (g *c15Gen) taxids(t [][2]int, n int) []int {
 
 func c15Hex(s string) string { return hx([]byte(s)) }
 
+func c15Short(l []int) string {
+	if len(l) <= 12 {
+		return fmt.Sprint(l)
+	}
+	return fmt.Sprintf("%v... (%d references)", l[:12], len(l))
+}
+
 // c15SeedPart: the thorough tier runs the seeds 1000*s+i, i = 0..7, in parallel: i selects one eighth of the
 // exhaustive enumerations
 func c15SeedPart() int {
@@ -1026,19 +1063,34 @@ func (c15) Gen(rng *rand.Rand, tier string, emit func(string)) {
 	d14r1[4], d14r1[12], d14r1[20] = 'c', 'a', 't'
 	emit("fc1 " + c15Hex(q30) + " " + c15Hex(d14r0) + "," + hx(d14r1))
 	emit("fc2 " + c15Hex(q30) + " " + c15Hex(d14r0) + "," + hx(d14r1))
-	// D15 (found on the unrepaired IndexSequence): r0 indexed; r1 (root level) at distance 5; at level 2 the long
-	// candidate r2 made the loop break before r3 (distance 3)
+	// D15 (found on the unrepaired IndexSequence): r0 (taxon 5, path 1>2>4>5) is indexed; r1 (taxon 7: root level)
+	// is at distance 5; at level 2 the long candidate r2 (61 bases, 19 shared 4-mers) made the loop break
+	// (wordmin = max(30,61)-3-4*5 = 38) before r3 (distance 3, 15 shared 4-mers) was looked at; r4 (taxon 4,
+	// distance 4) then records 4 -> taxon 4 although r3 (taxon 2) is within 4
 	{
 		s := q30
-		r1 := []byte(s)
-		r1[3], r1[8], r1[13], r1[18], r1[23] = 't', 'a', 'g', 'c', 'c'
+		sub := func(pos []int, to string) []byte {
+			b := []byte(s)
+			for i, p := range pos {
+				if b[p] == to[i] {
+					panic("c15 corpus: not a substitution")
+				}
+				b[p] = to[i]
+			}
+			return b
+		}
+		r1 := sub([]int{3, 8, 13, 18, 23}, "acgtc")
 		r2 := s[:22] + "ttgacctgaccgtaatgccaatgcatgcattgacgtacc"
-		r3 := []byte(s)
-		r3[5], r3[13], r3[21] = 'g', 'g', 'a'
-		refs := c15Hex(s) + "," + hx(r1) + "," + c15Hex(r2) + "," + hx(r3)
-		emit("ix 0 " + refs + " 5,7,4,4 1:1,2:1,4:2,5:4,7:1")
-		emit("id1 " + hx(r3) + " " + refs + " 5,7,4,4 1:1,2:1,4:2,5:4,7:1")
-		emit("id2 " + hx(r3) + " " + refs + " 5,7,4,4 1:1,2:1,4:2,5:4,7:1")
+		r3 := sub([]int{5, 13, 21}, "tag")
+		r4 := sub([]int{4, 10, 16, 25}, "cgca")
+		refs := c15Hex(s) + "," + hx(r1) + "," + c15Hex(r2) + "," + hx(r3) + "," + hx(r4)
+		emit("ix 0 " + refs + " 5,7,2,2,4 1:1,2:1,4:2,5:4,7:1")
+		q := sub([]int{4, 10, 16, 26}, "cgcg") // distance 4 from r0, 2 from r4
+		emit("id1 " + hx(q) + " " + refs + " 5,7,2,2,4 1:1,2:1,4:2,5:4,7:1")
+		emit("id2 " + hx(q) + " " + refs + " 5,7,2,2,4 1:1,2:1,4:2,5:4,7:1")
+		// the same without r4: no recorded entry is wrong, but the entry 3 -> taxon 2 is missing
+		refs = c15Hex(s) + "," + hx(r1) + "," + c15Hex(r2) + "," + hx(r3)
+		emit("ix 0 " + refs + " 5,7,2,2 1:1,2:1,4:2,5:4,7:1")
 	}
 	for _, c := range []string{
 		"cw " + c15Hex("acgtacgt") + " " + c15Hex("cgtacgta"),
@@ -1075,15 +1127,15 @@ func (c15) Gen(rng *rand.Rand, tier string, emit func(string)) {
 	// obitag2 only: candidates beyond the 1001st are never examined (`i > 1000`)
 	{
 		q := "acgtagctagcatcgatcgactagctacgatcgatcgtagctagctagcatcgat"
-		far := []byte(q)
-		for _, p := range []int{44, 46, 48, 50, 52} {
-			far[p] = g.other(far[p])
+		far := []byte(q) // the last 5 bases replaced: 47 shared 4-mers, distance 4
+		for p := 50; p < 55; p++ {
+			far[p] = map[byte]byte{'a': 'c', 'c': 'a', 'g': 't', 't': 'g'}[far[p]]
 		}
 		refs := make([][]byte, 0, 1003)
 		for i := 0; i < 1001; i++ {
 			refs = append(refs, far)
 		}
-		near := []byte(q)
+		near := []byte(q) // 3 spread differences: 40 shared 4-mers, distance 3 (the copies of far: 47 and 4)
 		near[10], near[20], near[30] = 't', 'a', 'c'
 		refs = append(refs, near)
 		emit("fc2 " + c15Hex(q) + " " + c15List(refs))
